@@ -15,6 +15,7 @@ import (
 	"os"
 	"strconv"
 	"strings"
+	"time"
 )
 
 type component struct {
@@ -63,8 +64,17 @@ func main() {
 		sc.Buffer(make([]byte, 1<<20), 1<<26)
 		var cur []string
 		have := false
+		// VERIF_BUDGET_S: stop starting scripts once this much time has passed (a changed library can make every script run
+		// into a time-out); the scripts executed so far are complete, the rest is left out and counted on stderr
+		budget, _ := strconv.ParseFloat(os.Getenv("VERIF_BUDGET_S"), 64)
+		started := time.Now()
+		skipped := 0
 		flush := func() {
 			if have {
+				if budget > 0 && time.Since(started).Seconds() > budget {
+					skipped++
+					return
+				}
 				c.run(cur, w)
 				w.Flush()
 			}
@@ -73,6 +83,11 @@ func main() {
 			line := sc.Text()
 			if strings.HasPrefix(line, "# script") {
 				flush()
+				if skipped > 0 {
+					cur = cur[:0]
+					have = true
+					continue
+				}
 				fmt.Fprintln(w, line)
 				cur = cur[:0]
 				have = true
@@ -87,6 +102,9 @@ func main() {
 			}
 		}
 		flush()
+		if skipped > 0 {
+			fmt.Fprintf(w, "#budget %.0f s used up: %d scripts not executed\n", budget, skipped)
+		}
 	default:
 		fmt.Fprintln(os.Stderr, "unknown mode", os.Args[2])
 		os.Exit(2)
